@@ -39,6 +39,8 @@ pub struct Profile {
     pub huge_values: bool,
     /// big values have one of a few exact sizes around 64 KiB multiples (in-place replacement by a value of the same size)
     pub exact_sizes: bool,
+    /// integer values that hash to the last slots of the 64-slot index tables (probe runs that wrap around the table end)
+    pub wrap_values: bool,
 }
 
 impl Profile {
@@ -50,7 +52,7 @@ impl Profile {
             w_maintain: 0, reads_per_step: 1, exotic_values: false, bad_inputs: true, max_elems: 10,
             variants: vec![Kind::Memory],
             searches_per_step: 0, focus: Focus::Mixed, search_values: false, cross_type: true,
-            binary_values: false, big_values: false, huge_values: false, exact_sizes: false,
+            binary_values: false, big_values: false, huge_values: false, exact_sizes: false, wrap_values: false,
         };
         let search = |p: &mut Profile, f: Focus| {
             p.searches_per_step = 3; p.focus = f; p.search_values = true; p.reads_per_step = 0;
@@ -64,9 +66,9 @@ impl Profile {
             "alias" => { p.w_insert_aliases = 18; p.w_remove_aliases = 8; p.w_insert_nodes = 12; p.w_update_nodes = 8; p.w_remove = 8; p.w_insert_edges = 4; }
             "index" => { p.w_index = 12; p.w_insert_values = 16; p.w_remove_values = 10; p.w_remove = 8; p.w_tx = 8; p.reads_per_step = 2; }
             "tx" => { p.w_tx = 40; }
-            "maint" => { p.w_maintain = 14; p.variants = vec![Kind::Mapped]; }
-            "maint_file" => { p.w_maintain = 14; p.variants = vec![Kind::File]; }
-            "maint_memory" => { p.w_maintain = 14; p.variants = vec![Kind::Memory]; }
+            "maint" => { p.w_maintain = 14; p.variants = vec![Kind::Mapped]; p.wrap_values = true; p.w_index = 8; }
+            "maint_file" => { p.w_maintain = 14; p.variants = vec![Kind::File]; p.wrap_values = true; p.w_index = 8; }
+            "maint_memory" => { p.w_maintain = 14; p.variants = vec![Kind::Memory]; p.wrap_values = true; p.w_index = 8; }
             "variants" => { p.variants = Kind::all().to_vec(); p.w_maintain = 3; }
             // the same in lock-step with values of 40-120 KiB: the files pass 1 MiB and are reopened, copied, backed up
             "variants_big" => { p.variants = Kind::all().to_vec(); p.w_maintain = 8; p.big_values = true; p.max_elems = 60; p.w_insert_nodes = 30;
@@ -207,6 +209,7 @@ impl Gen<'_> {
         if self.p.exotic_values && self.rng.chance(3, 4) {
             return exotic_value(self.rng);
         }
+        if self.p.wrap_values && self.rng.chance(1, 3) { return DbValue::I64(*self.rng.pick(&[63i64, 63, 127, 62])); }
         if self.rng.chance(7, 10) { DbValue::I64(self.rng.below(3) as i64) } else { DbValue::String(self.rng.pick(&["x", "y"]).to_string()) }
     }
     fn key(&mut self) -> DbValue {
@@ -552,12 +555,43 @@ fn observe_all(vs: &Variants) -> Value {
     observe_variants(&vs.dbs)
 }
 
+/// Everything a reader can see INCLUDING result order: the dump (its lists are in the order the queries return them:
+/// elements, properties per element, adjacency, the alias listing, the index listing) plus, for every indexed key and every
+/// value stored under it, the ids of the index search in the order returned. C05 demands that a maintenance operation
+/// changes none of it.
+fn order_fingerprint(db: &DbX) -> String {
+    let o = match guarded(|| observe(db)) { Ok(Ok(o)) => o, Ok(Err(e)) => return format!("observe failed: {e}"), Err(p) => return format!("panic: {p}") };
+    let mut searches: Vec<Value> = vec![];
+    let r = guarded(|| -> Result<(), DbError> {
+        let ix = exec_read(db, QueryBuilder::select().indexes().query())?;
+        let keys: Vec<DbValue> = ix.elements[0].values.iter().map(|kv| kv.key.clone()).collect();
+        let all = exec_read(db, QueryBuilder::search().elements().query())?.ids();
+        let els = exec_read(db, QueryBuilder::select().ids(all).query())?;
+        for k in keys {
+            let mut seen: Vec<DbValue> = vec![];
+            for e in &els.elements {
+                for kv in &e.values {
+                    if kv.key == k && !seen.contains(&kv.value) {
+                        seen.push(kv.value.clone());
+                        let ids = exec_read(db, QueryBuilder::search().index(k.clone()).value(kv.value.clone()).query())?;
+                        searches.push(json!([venc(&k), venc(&kv.value), ids_of(&ids)]));
+                    }
+                }
+            }
+        }
+        Ok(())
+    });
+    if !matches!(r, Ok(Ok(()))) { searches.push(json!("index search failed")); }
+    digest(&json!([o, searches]))
+}
+
 fn maintain(rng: &mut Rng, vs: &mut Variants, work: &str, run: u64, gen_no: &mut u64) -> Value {
     // one maintenance operation applied to every variant that supports it
     let op = *rng.pick(&["reopen", "optimize", "shrink", "backup_restore", "copy", "rename", "switch"]);
     let mut ok = true;
     let mut errs: Vec<String> = vec![];
     *gen_no += 1;
+    let before: Vec<String> = vs.dbs.iter().map(|(_, db, _)| order_fingerprint(db)).collect();
     for (kind, db, path) in vs.dbs.iter_mut() {
         let new_path = path_for(work, run, *kind, *gen_no);
         let r: Result<Result<(), DbError>, String> = guarded(|| -> Result<(), DbError> {
@@ -625,7 +659,10 @@ fn maintain(rng: &mut Rng, vs: &mut Variants, work: &str, run: u64, gen_no: &mut
             Err(p) => { ok = false; errs.push(format!("{}: panic {p}", kind.name())); }
         }
     }
-    json!({"ev": "Maintain", "op": op, "ok": ok, "errs": errs})
+    // every query returns exactly the same result as before, result order included
+    let after: Vec<String> = vs.dbs.iter().map(|(_, db, _)| order_fingerprint(db)).collect();
+    let changed: Vec<&str> = vs.dbs.iter().enumerate().filter(|(i, _)| before[*i] != after[*i]).map(|(_, (k, _, _))| k.name()).collect();
+    json!({"ev": "Maintain", "op": op, "ok": ok, "errs": errs, "order_same": changed.is_empty(), "order_changed_on": changed})
 }
 
 pub fn run(args: &Args) {
